@@ -19,7 +19,7 @@ def _view(sc, res):
     streams = M._streams(sc, res)
     closed = sorted(c for x in res["itr"].closed for c in x)
     snaps = res["log"].snaps
-    img = sorted((e["path"], e["value"]) for e in snaps[-1]["elems"]) if snaps else []
+    img = sorted((e["path"], e["value"]) for e in snaps[-1]["elems"]) if snaps and snaps[-1].get("internals", True) else []
     return streams, closed, img
 
 
